@@ -261,7 +261,8 @@ def execute(program, ctx, mode):
         return True
 
     def check(c_touched, k):
-        ad, ut = fresh_registries()
+        ad, ut = fresh_registries()          # asked lookup / lookupAll family only
+        adS, utS = fresh_registries()        # asked subscriptions family only (no cache interplay between the expectations)
         for c in range(nC):
             comp = comps[c]
             m = M[c]
@@ -313,7 +314,7 @@ def execute(program, ctx, mode):
                     ctx.violation('C16', 'getUtilitiesFor', 'C16|getUtilitiesFor|%s' % ('extra' if len(g) > len(w_) else ('missing' if len(g) < len(w_) else 'different')),
                                   {'c': c, 'provided': U.__name__})
                 g = list(comp.getAllUtilitiesRegisteredFor(U))
-                w_ = list(ut[c].subscriptions((), U))
+                w_ = list(utS[c].subscriptions((), U))
                 if not eq_multiset(g, w_):
                     ctx.violation('C16', 'getAllUtilitiesRegisteredFor', 'C16|getAllUtilitiesRegisteredFor|%s' % (
                         'extra' if len(g) > len(w_) else ('missing' if len(g) < len(w_) else 'different')),
@@ -340,7 +341,7 @@ def execute(program, ctx, mode):
                         if g != sorted(w_):
                             ctx.violation('C16', 'getAdapters', 'C16|getAdapters', {'c': c, 'got': repr(g), 'want': repr(w_)})
                         g = comp.subscribers((ob,), Pi)
-                        w_ = ad[c].subscribers((ob,), Pi)
+                        w_ = adS[c].subscribers((ob,), Pi)
                         if sorted(map(repr, g)) != sorted(map(repr, w_)):
                             ctx.violation('C16', 'subscribers', 'C16|subscribers|%s' % (
                                 'extra' if len(g) > len(w_) else ('missing' if len(g) < len(w_) else 'different')),
@@ -349,7 +350,7 @@ def execute(program, ctx, mode):
                     comp.handle(ob)
                     gc_ = sorted(calls)
                     del calls[:]
-                    ad[c].subscribers((ob,), None)
+                    adS[c].subscribers((ob,), None)
                     if gc_ != sorted(calls):
                         ctx.violation('C16', 'handle', 'C16|handle|%s' % ('extra' if len(gc_) > len(calls) else 'missing-or-different'),
                                       {'c': c, 'got': gc_, 'want': sorted(calls)})
@@ -363,7 +364,7 @@ def execute(program, ctx, mode):
                     comp.handle(*pair)
                     gc_ = sorted(calls)
                     del calls[:]
-                    ad[c].subscribers(pair, None)
+                    adS[c].subscribers(pair, None)
                     if gc_ != sorted(calls):
                         ctx.violation('C16', 'handle', 'C16|handle|multi', {'c': c})
             # ---- consistency probe
